@@ -547,6 +547,15 @@ def gen_pipeline_case(rng):
         news = [('NA', chosen[:cut])] + ([('NB', chosen[cut:])] if chosen[cut:] else [])
         split = resname + ''.join(f":{nn}-{','.join(ats)}" for nn, ats in news)
     blocks = gen_build(rng, moltypes, molecules, resnames=('RA', 'RB', 'NA', 'NA', 'NB') if split else ('RA', 'RB'))
+    if rng.random() < 0.6:
+        # a directive that runs "to the end of the molecule" (a stop value beyond every residue number, also beyond the
+        # ones the residues get after -split), for all molecules of one type
+        inst = [n for n, c in molecules for _ in range(c)]
+        nid = 1 + max(d[4] for b in blocks for d in b[3])
+        ds = [(rng.random() < 0.35, rn, rng.randint(0, 2), 1000, nid + k, rng.choice(['sphere', 'cylinder', 'rectangle']))
+              for k, rn in enumerate(['RA', 'RB', 'NA', 'NB'] if split else ['RA', 'RB'])]
+        cand = sorted({m['name'] for m in moltypes if split and split.split(':')[0] in m['resnames']} & set(inst)) or sorted(set(inst))
+        blocks.append((rng.choice(cand), 0, len(inst), ds))
     return {'moltypes': moltypes, 'molecules': molecules, 'blocks': blocks, 'split': split}
 
 
